@@ -15,6 +15,21 @@ DUR_FACTORS = {"s": 1.0, "min": 60.0, "h": 3600.0, "ms": 0.001, "day": 86400.0}
 _counter = itertools.count(1)
 LIVENESS_S = 10.0
 
+# uncaught exceptions of simulator worker threads (a listener raising inside END_REPLICATION kills the thread)
+THREAD_ERRORS = {}
+_prev_excepthook = threading.excepthook
+
+
+def _excepthook(args):
+    name = getattr(args.thread, "name", "?")
+    if name.startswith("vsim-"):
+        THREAD_ERRORS.setdefault(name, []).append("%s: %s" % (args.exc_type.__name__, str(args.exc_value)[:200]))
+        return
+    _prev_excepthook(args)
+
+
+threading.excepthook = _excepthook
+
 
 # ------------------------------------------------------------------ time helpers
 def dec_sut(t):
@@ -445,6 +460,8 @@ class Harness:
             w.join(2.0)
             if w.is_alive():
                 leaked.append(w.name)
+        for err in THREAD_ERRORS.pop(self.name, []):
+            leaked.append("worker thread died with an uncaught exception: " + err)
         return leaked
 
 
